@@ -30,7 +30,7 @@ CHECKS = {
                 note=SCHED_NOTE + " Priorities are drawn so that exact score ties between different priorities cannot occur (they would make the cached first-queued priority depend on heap layout)."),
     "C05": dict(level="exploration", ref="DESIGN.md 4/C05",
                 technique="runtime monitoring: registration/drain histories vs independent longest-prefix/platform/size-class resolver in the reference model",
-                text="Worlds with nested instance name prefixes, several platforms, predeclared and worker-created queues and size classes, queue removal by timeout, drains by worker-id patterns and terminations. The model resolves each request independently (component-wise longest prefix, canonical platform, scripted size class) and checks which worker may receive which task, the instance name suffix, Execute error codes before/after the start-up grace period, Synchronize size-class validation and that drained/terminating workers get nothing while undrained ones become eligible again.",
+                text="Worlds with nested instance name prefixes, several platforms, predeclared and worker-created queues and size classes, queue removal by timeout, drains by worker-id patterns and terminations. The model resolves each request independently (component-wise longest prefix, canonical platform, scripted size class) and checks which worker may receive which task, the instance name suffix, Execute error codes before/after the start-up grace period, Synchronize size-class validation and that drained/terminating workers get nothing while undrained ones become eligible again. In the concurrent stress rounds, where no model runs, every hand-out is checked against the necessary routing condition (the worker's prefix is a component-wise prefix of a requesting instance name, equal platform, matching instance name suffix).",
                 note=SCHED_NOTE),
     "C06": dict(level="exploration", ref="DESIGN.md 4/C06",
                 technique="runtime monitoring on a virtual clock: deadlines predicted by the reference model, bounded wake-up of blocked calls, zero-residue hook counts after all timeouts",
